@@ -202,6 +202,37 @@ Definition translate_addr (s : pstate) (va : Z) : res out :=
 (* level in 4..1; returns whether the table is empty afterwards *)
 Definition pmax (a b : Z) := if a <? b then b else a.     (* Ord on Page = on the address *)
 Definition pmin (a b : Z) := if b <? a then b else a.
+(* the loop over the slots start..=end of one table; `rec` is the call for the next lower level *)
+Definition cu_loop (rec : pstate -> Z -> Z -> Z -> Z -> res (pstate * bool))
+  (table level table_addr rs re e : Z) : nat -> Z -> pstate -> res pstate :=
+  let offset_per_entry := entry_alignment level in
+  fix loop (n : nat) (i : Z) (s : pstate) : res pstate :=
+    match n with
+    | O => Ok s
+    | S n' =>
+        if e <? i then Ok s else
+        let slot := table + 8 * i in
+        match next_table (rd s slot) with
+        | WTable t =>
+            do m <- mul64 true offset_per_entry i;     (* (offset_per_entry as usize) * i *)
+            do st <- forward_checked_u64 table_addr m;
+            do st <- unwrap st;
+            do en <- va_add st (offset_per_entry - 1);
+            do sp <- page_containing S4K st;
+            let sp := pmax sp rs in
+            do ep <- page_containing S4K en;
+            let ep := pmin ep re in
+            do r <- rec s t (level - 1) sp ep;
+            let '(s1, empty) := r in
+            if empty then
+              (* entry.frame().unwrap(); entry.set_unused(); deallocate_frame(frame) *)
+              let fr := e_addr (rd s1 slot) in
+              if e_present (rd s1 slot) then loop n' (i + 1) (deallocate (wr s1 slot 0) fr)
+              else Panic
+            else loop n' (i + 1) s1
+        | _ => loop n' (i + 1) s
+        end
+    end.
 Fixpoint clean_up (fuel : nat) (s : pstate) (table level rs re : Z) : res (pstate * bool) :=
   match fuel with
   | O => Panic
@@ -211,35 +242,8 @@ Fixpoint clean_up (fuel : nat) (s : pstate) (table level rs re : Z) : res (pstat
       let start := page_table_index rs level in
       let e := page_table_index re level in
       do s' <-
-        (if level =? 1 then Ok s else
-         let offset_per_entry := entry_alignment level in
-         (fix loop (n : nat) (i : Z) (s : pstate) : res pstate :=
-            match n with
-            | O => Ok s
-            | S n' =>
-                if e <? i then Ok s else
-                let slot := table + 8 * i in
-                match next_table (rd s slot) with
-                | WTable t =>
-                    do m <- mul64 true offset_per_entry i;     (* (offset_per_entry as usize) * i *)
-                    do st <- forward_checked_u64 table_addr m;
-                    do st <- unwrap st;
-                    do en <- va_add st (offset_per_entry - 1);
-                    do sp <- page_containing S4K st;
-                    let sp := pmax sp rs in
-                    do ep <- page_containing S4K en;
-                    let ep := pmin ep re in
-                    do r <- clean_up fuel' s t (level - 1) sp ep;
-                    let '(s1, empty) := r in
-                    if empty then
-                      (* entry.frame().unwrap(); entry.set_unused(); deallocate_frame(frame) *)
-                      let fr := e_addr (rd s1 slot) in
-                      if e_present (rd s1 slot) then loop n' (i + 1) (deallocate (wr s1 slot 0) fr)
-                      else Panic
-                    else loop n' (i + 1) s1
-                | _ => loop n' (i + 1) s
-                end
-            end) 512%nat start s);
+        (if level =? 1 then Ok s
+         else cu_loop (clean_up fuel') table level table_addr rs re e 512%nat start s);
       Ok (s', table_all_unused s' table)
   end.
 Definition clean_up_addr_range (s : pstate) (rs re : Z) : res pstate :=
